@@ -5,6 +5,7 @@ void registerSerialize();
 void registerNodeList();
 void registerLowLevel();
 void registerCapi();
+void registerThreads();
 void registerAll()
 {
     registerNum();
@@ -14,4 +15,5 @@ void registerAll()
     registerNodeList();
     registerLowLevel();
     registerCapi();
+    registerThreads();
 }
